@@ -223,6 +223,34 @@ def reg_to_case(m, reg):
     return out
 
 
+def string_variants(types):
+    """realisations of the opaque strings of a counterexample for the native replay: the solver leaves the CONTENT of a string free (only
+    uninterpreted predicates over it are constrained), so the replay tries the token names and a few degenerate contents"""
+    import copy
+    def mapped(f_doc, f_other):
+        t2 = copy.deepcopy(types)
+        def docs(xs): return [f_doc(x) for x in xs]
+        def field(f):
+            f['docs'] = docs(f['docs'])
+            for k in ('name', 'type_name'):
+                if f.get(k) is not None: f[k] = f_other(f[k])
+        for t in t2:
+            t['docs'] = docs(t['docs']); t['path'] = [f_other(x) for x in t['path']]
+            for p in t['params']: p['name'] = f_other(p['name'])
+            d = t['def']
+            for f in d.get('composite', []): field(f)
+            for v in d.get('variant', []):
+                v['docs'] = docs(v['docs']); v['name'] = f_other(v['name'])
+                for f in v['fields']: field(f)
+        return t2
+    ident = lambda x: x
+    yield 'token names', types
+    for label, fd, fo in (('docs empty strings', lambda x: '', ident), ('docs blank', lambda x: '  ', ident), ('docs with surrounding space', lambda x: ' ' + x + ' ', ident),
+                          ('all strings empty', lambda x: '', lambda x: ''), ('all strings with surrounding space', lambda x: ' ' + x + ' ', lambda x: ' ' + x + ' '),
+                          ('all strings upper case', lambda x: x.upper(), lambda x: x.upper()), ('all strings non-ascii', lambda x: x + '\u00e9\u4e16', lambda x: x + '\u00e9\u4e16')):
+        yield label, mapped(fd, fo)
+
+
 def pin_to_model(M, m, v):
     """constrain every symbolic leaf of a value to its value in model m (turns a symbolic registry into one concrete registry)"""
     def go(x):
